@@ -93,13 +93,25 @@ type p2env struct {
 
 func (e *p2env) close() { os.RemoveAll(e.root) }
 
+// envDirName is the name of the directory a set lives in: every fourth one
+// contains a '%' (paths end up in format strings easily).
+func envDirName() string {
+	envDirCounter++
+	if envDirCounter%4 == 0 {
+		return "50% set"
+	}
+	return "set"
+}
+
+var envDirCounter int
+
 // newP2Env materialises the set and runs the real par2.Create.
 func newP2Env(set scen.Set, base string, g int) (*p2env, error) {
 	root, err := os.MkdirTemp("", "p2-")
 	if err != nil {
 		return nil, err
 	}
-	e := &p2env{root: root, dir: filepath.Join(root, "set"), set: set, st: scen.NewState(set)}
+	e := &p2env{root: root, dir: filepath.Join(root, envDirName()), set: set, st: scen.NewState(set)}
 	e.idx = filepath.Join(e.dir, base+".par2")
 	e.paths, err = set.Materialize(e.dir)
 	if err != nil {
@@ -147,6 +159,21 @@ func newP2Env(set scen.Set, base string, g int) (*p2env, error) {
 			e.order[scen.SliceRef{F: fi, I: i}] = k
 			k++
 		}
+	}
+	// Create's postcondition as far as the scenarios depend on it: the index
+	// exists and recovery blocks 0..n-1 are stored beside it in files named
+	// <base>.*.par2 (C05 judges the bytes)
+	if _, err := os.Stat(e.idx); err != nil {
+		return e, fmt.Errorf("Create returned nil but wrote no index file %q", filepath.Base(e.idx))
+	}
+	if got := e.availableExponents(); len(got) != set.Blocks {
+		var have []string
+		if des, derr := os.ReadDir(e.dir); derr == nil {
+			for _, de := range des {
+				have = append(have, de.Name())
+			}
+		}
+		return e, fmt.Errorf("Create returned nil but the recovery files beside %q hold blocks %v, %d were requested (directory holds %q)", filepath.Base(e.idx), head16(got), set.Blocks, have)
 	}
 	return e, nil
 }
@@ -198,7 +225,8 @@ func (e *p2env) availableExponents() []int {
 		}
 		for _, p := range par2rw.ParseLenient(b) {
 			if p.Type == par2rw.TypeRecv && p.SetID == e.ref.SetID {
-				if rv, err := par2rw.DecodeRecv(p.Body); err == nil && rv.Exp < 65536 {
+				// a block of this set has exactly the slice size
+				if rv, err := par2rw.DecodeRecv(p.Body); err == nil && rv.Exp < 65536 && (e.set.SliceSize == 0 || len(rv.Data) == e.set.SliceSize) {
 					seen[int(rv.Exp)] = true
 				}
 			}
